@@ -381,7 +381,11 @@ class LinearLeastSquares(App):
 
                     proxg = prox.L2Reg(self.x.shape, self.lamda, y=self.z)
                 else:
-                    proxf2c = prox.Conj(proxg)
+                    if self.proxg is None:
+                        proxf2c = prox.Conj(prox.NoOp(self.G.oshape))
+                    else:
+                        proxf2c = prox.Conj(proxg)
+
                     proxg = prox.NoOp(self.x.shape)
 
                 proxfc = prox.Stack([proxf1c, proxf2c])
